@@ -31,6 +31,15 @@ class Abort(BaseException):
     """Unwinds a parked thread when an execution is cut short."""
 
 
+class StepTimeout(Exception):
+    """A thread was given the baton and did not reach its next scheduling
+    point (nor end) within STEP_TIMEOUT seconds of real time: it loops without
+    any of the operations the scheduler owns (sleep, join, pipe reads ...)."""
+
+
+STEP_TIMEOUT = 8.0
+
+
 class Pipe:
     def __init__(self, cap):
         self.cap = cap          # bytes; a write larger than cap is allowed
@@ -147,7 +156,8 @@ class TActor:
 
     def step(self):
         self.sem.release()
-        self.s.back.acquire()
+        if not self.s.back.acquire(timeout=STEP_TIMEOUT):
+            raise StepTimeout(self.name)
 
     def summary(self):
         return ('T', self.name, self.kind, self.done)
